@@ -44,8 +44,8 @@ LEVEL.update({
         "FormatReader mock; reader-side cross-record state is covered where it lives (C06 line/record buffers, C12 pool, C13 caches)"),
 })
 LEVEL.update({
- "C19":("only the epoch arithmetic: DateTimeToEpoch (both units) and EpochToDateTimeRFC3339 (SECOND) on the real code and the real time package's integer code, for every instant of years 1..9999 under 64-bit wrap-around semantics; counterexamples are replayed natively through the real parser and formatter",
-        "parsing, layouts, formatting and IANA zones are cut away (outside); the MILLISECOND inverse direction is not registered because the solver does not finish its unsat direction"),
+ "C19":("epoch arithmetic: DateTimeToEpoch (both units) and EpochToDateTimeRFC3339 (SECOND) on the real code and the real time package's integer code for every instant of years 1..9999 under 64-bit wrap-around semantics; zone logic: the real parseDateTime, go-corelib OverwriteTZ/ConvertTZ and the real time package (time.Date, absDate, Time.In, Location.lookup) over the real IANA transition tables of four zones, every from/to combination, every second within ±25 h of every transition in a window of years, against a seconds-level statement of instant and wall-clock preservation (DST gaps per time.Date's contract); empty-input and parse-error rules of the four exported functions; counterexamples are replayed natively through the real parser and formatter",
+        "text parsing and layouts (times.SmartParse, time.Parse/Format) are cut away in the engine (natively they run); zones: 4, years: 2021 (quick) / 2018-2023 (thorough); the MILLISECOND inverse direction is not registered because the solver does not finish its unsat direction"),
 })
 LEVEL.update({
  "C20":("pool hygiene and _node freshness on the real javascript.go code: two consecutive calls over every subset of argument names (incl. a built-in's name), first script returning or throwing, the second call getting the pooled VM: the globals visible to the second script are exactly the built-ins plus its own arguments; _node of a node built from recycled memory; the stale _node of a changing ancestor is the recorded finding F5",
